@@ -1,0 +1,61 @@
+//go:build verif
+
+package redisemu
+
+// C16: process-wide state outside the data stores. Each variable is tied to the
+// package-level mutex that protects it (the ghost lock state of that mutex must
+// be "held" at every plain read or write), or must only be touched through
+// sync/atomic. Every function that mentions one of them is verified with the
+// guard discipline on (census obligation census.global.<name>).
+//@ guarded global.info by mutex infoMu
+//@ guarded global.clients global.clientId by mutex clientsMu
+//@ guarded global.signals by atomic
+
+//@ func newClientState
+//@ prop C16
+//@ guards on
+//@ safetyprop none
+//@ requires dispatcher != nil && dispatcher.dss != nil
+//@ modifies *
+
+//@ func isClientActive
+//@ prop C16
+//@ guards on
+//@ safetyprop none
+//@ modifies ghost.mutexHeld
+
+//@ func clientState.unregister
+//@ prop C16
+//@ guards on
+//@ safetyprop none
+//@ requires cs != nil
+//@ modifies *
+
+//@ func fnInfo
+//@ prop C16
+//@ guards on
+//@ safetyprop none
+//@ requires ctx != nil && ctx.cd != nil
+//@ modifies *
+
+// the table of databases of an emulator: guarded by the set's own mutex
+//@ guarded dataStoreSet.dbs by mutex mu
+
+//@ func dataStoreSet.save
+//@ prop C16
+//@ guards on
+//@ safetyprop none
+//@ mode int
+//@ requires dssOK(dss) && !held
+//@ requires free ready: forall j int :: haskey(dss.dbs, j) ==> dbReady(dss.dbs[j])
+//@ modifies *
+//@ loop 1 invariant len(indexes) == len(all) && allsel(k, 0, len(all), all[k] != nil && dbReady(all[k])) && !held
+//@ loop 2 invariant len(indexes) == len(all) && allsel(k, ri2, len(all), all[k] != nil && dbReady(all[k])) && !held
+
+//@ func dataStoreSet.dbSize
+//@ prop C16
+//@ guards on
+//@ safetyprop none
+//@ requires dssOK(dss) && !held && !mutated && !bumped && !removedKey
+//@ requires free ready: forall j int :: haskey(dss.dbs, j) ==> dbReady(dss.dbs[j])
+//@ modifies *
